@@ -1,7 +1,7 @@
 (* Property C15 — read-only cache mode never adds, changes or removes entries.
    Pinned statements only; proofs are in Proofs/RoCache.v and Proofs/DiskConfig.v. *)
 From Coq Require Import List NArith Bool.
-From Sccache Require Import Base.Sx Model.Lru Model.RoCache Model.DiskConfig Proofs.RoCache Proofs.DiskConfig.
+From Sccache Require Import Base.Sx Model.Lru Model.RoCache Model.RoConc Model.DiskConfig Proofs.RoCache Proofs.RoConc Proofs.DiskConfig.
 Import ListNotations.
 Local Open Scope N_scope.
 
@@ -63,6 +63,25 @@ Theorem C15_hits_served_always : forall d ops,
      snd (step d' (PpGet k)) = OFound).
 Proof. exact hits_served_always. Qed.
 Print Assumptions C15_hits_served_always.
+
+(* ... and under CONCURRENCY (Model/RoConc.v: every lookup on its own thread, each store behind its mutex,
+   the first holder opens the store with a scan that takes any number of scheduler ticks): for ALL
+   schedules, scan lengths and numbers of simultaneous lookups of both stores, a lookup that has returned
+   answered "hit" / "found" if its entry is in the directory.  In particular a lookup that arrives while
+   another request is still opening the read-only cache WAITS; it is never answered "miss". *)
+Theorem C15_concurrent_lookups_served : forall d ops scan sched,
+  rw d = false -> main d = None -> pp d = None -> ksortedb (fs d) = true -> total_size (fs d) <= dcap d ->
+  forallb is_lookup ops = true ->
+  let c := crun ops scan (cstart d (length ops)) sched in
+  map proj (fs (cdc c)) = map proj (fs d) /\
+  forall i r, result_of c i = Some r ->
+    forall k sz mt,
+      (nth_error ops i = Some (Get k) -> alookup (main_path k) (fs d) = Some (sz, mt) ->
+       is_temp (main_path k) = false -> min_entry <= sz -> r = OHit) /\
+      (nth_error ops i = Some (PpGet k) -> alookup (pp_path k) (fs d) = Some (sz, mt) ->
+       is_temp (pp_path k) = false -> r = OFound).
+Proof. exact concurrent_lookups_served. Qed.
+Print Assumptions C15_concurrent_lookups_served.
 
 (* misses are compiled normally as far as the storage is concerned: after any read-only history of a
    freshly started server an entry that is not in the directory is a miss, and the store of the
@@ -155,6 +174,17 @@ Example ex_served_always_nonvacuous :
   forallb (ro_op_fits (total_size ex_dir)) (ex_ops ++ [Restart false true 105; Get [97;98;99;100]]) = false /\
   forallb (ro_op_fits (total_size ex_dir)) [Get [101;102;48;49]; Restart false true 105; PpGet [97;98;99;100]] = true.
 Proof. vm_compute. repeat split; congruence. Qed.
+
+(* three simultaneous lookups; thread 0 takes the result store and scans for 5 ticks while threads 1 and 2
+   are scheduled again and again: 1 waits for the lock, 2 (other store) proceeds; in the end all are served *)
+Definition ex_lookups : list op := [Get [97;98;99;100]; Get [101;102;48;49]; PpGet [97;98;99;100]].
+Example ex_concurrent :
+  let mid := crun ex_lookups 5 (cstart (ex_dc 200) 3) [0; 1; 1; 2; 1; 0; 1; 2]%nat in
+  let fin := crun ex_lookups 5 mid (rounds 3 8) in
+  lock_main mid = Some 0%nat /\ nth_error (pcs mid) 1 = Some PStart /\ result_of mid 1 = None /\
+  map (result_of fin) [0; 1; 2]%nat = [Some OHit; Some OHit; Some OFound] /\
+  lock_main fin = None /\ lock_pp fin = None.
+Proof. vm_compute. repeat split; reflexivity. Qed.
 
 Example ex_hit_when_it_fits :
   total_size ex_dir <= 200 /\ snd (step (ex_dc 200) (Get [97;98;99;100])) = OHit /\
